@@ -1,8 +1,9 @@
 (** C03 — fixed-lambda smoothers return the rounded PLS / expectile curve. Statements only.
     The int16 output is the half-even rounding ([frne], at R: [rneR]) of the curve named below. *)
-From Coq Require Import ZArith Reals Lra List.
+From Coq Require Import ZArith Reals Lra Lia List.
+Import ListNotations.
 From HDC Require Import Base.Prelude Base.Ops Model.Ws2d Model.Smoothers Proofs.RSums Proofs.Penalty Proofs.Ws2dReal
-     Proofs.Rounding Proofs.SmoothersProofs Proofs.Expectile Proofs.ExpectileModel.
+     Proofs.Rounding Proofs.SmoothersProofs Proofs.Expectile Proofs.ExpectileModel Proofs.HalfEnvelope Proofs.Ws2dIndex.
 Open Scope R_scope.
 
 (** symmetric smoother, lambda > 0, >= 2 valid cells: the curve is the unique minimiser of the
@@ -80,6 +81,28 @@ Theorem C03_asym_fit_is_expectile : forall p lam (w y : list R),
     (expectile_objective p y w lam z' = expectile_objective p y w lam (asym_fit OpsR p lam w y) -> z' = asym_fit OpsR p lam w y).
 Proof. exact asym_fit_is_expectile. Qed.
 Print Assumptions C03_asym_fit_is_expectile.
+
+(** the envelope p = 1/2 weighs every valid cell 1/2: what is rounded is the PLS curve for 2 * lambda, not the one for lambda
+    (p = 1/2 is an envelope like any other, not a switch to the symmetric smoother) *)
+Theorem C03_half_envelope_is_pls_at_2lam : forall lam (w y : list R),
+  0 < lam -> (4 <= length y)%nat -> length w = length y ->
+  (forall i, (0 <= i < Z.of_nat (length y))%Z -> 0 <= atl w i) ->
+  (exists a b, (0 <= a < b)%Z /\ (b < Z.of_nat (length y))%Z /\ 0 < atl w a /\ 0 < atl w b) ->
+  asym_fit OpsR (1 / 2) lam w y = ws2d OpsR y (2 * lam) w.
+Proof. exact half_envelope_is_pls_at_2lam. Qed.
+Print Assumptions C03_half_envelope_is_pls_at_2lam.
+
+Example C03_half_envelope_premises : exists (w y : list R),
+  (4 <= length y)%nat /\ length w = length y /\ (forall i, (0 <= i < Z.of_nat (length y))%Z -> 0 <= atl w i) /\
+  (exists a b, (0 <= a < b)%Z /\ (b < Z.of_nat (length y))%Z /\ 0 < atl w a /\ 0 < atl w b).
+Proof.
+  exists [1; 0; 1; 1; 1], [3; 0; 5; 4; 8]. cbn [length]. repeat split; try lia.
+  - intros i Hi. unfold atl, vecZ. replace (i <? 0)%Z with false by lia.
+    destruct (Z.to_nat i) as [|[|[|[|[|k]]]]]; cbn [nth f0 OpsR]; try lra. destruct k; cbn [nth f0 OpsR]; lra.
+  - exists 0%Z, 2%Z. split; [lia|]. split; [lia|]. split.
+    + unfold atl, vecZ. change (0 <? 0)%Z with false. change (Z.to_nat 0) with 0%nat. cbn [nth]. lra.
+    + unfold atl, vecZ. change (2 <? 0)%Z with false. change (Z.to_nat 2) with 2%nat. cbn [nth]. lra.
+Qed.
 
 Example C03_example :
   rneR (5 / 2) = 2%Z /\ rneR (7 / 2) = 4%Z /\ rneR (- (5 / 2)) = (-2)%Z.
